@@ -2,6 +2,7 @@
 //
 //	gen <tier> <outdir> <repo>   generate the case files of one run
 //	one <schema-file>            ParseSchema on one file, print its projection (replay)
+//	inproc <schema-file>         parse once, generate three times in process, compare (replay)
 //	tables                       unicode.IsSpace / unicode.IsDigit of the toolchain as rune ranges
 //
 // gen writes
@@ -18,6 +19,7 @@ import (
 	"io/ioutil"
 	"os"
 	"path/filepath"
+	"reflect"
 	"sort"
 	"strings"
 	"time"
@@ -206,6 +208,11 @@ func (r *runner) schema(kind, label, text string, compile bool, declared ...decl
 	for _, m := range s.Methods {
 		showDef(r.impl, "D", id, "m", m.Name, m.CRC, m.Parameters, m.Response.Type, m.Response.IsList)
 	}
+	if kind == "valid" || kind == "shipped" || kind == "fixture" {
+		st := inProcess(text)
+		r.impl.Line("I", id, vc.HexS(st))
+		r.stat["inprocess:"+strings.SplitN(st, ":", 2)[0]]++
+	}
 	var cl *gen.VerifClass
 	panicked, _ := vc.Catch(func() { cl, _ = gen.VerifClassify(s) })
 	if panicked || cl == nil {
@@ -222,6 +229,101 @@ func (r *runner) schema(kind, label, text string, compile bool, declared ...decl
 		r.impl.Line("K", id, "single", vc.HexS(o.Interface), vc.HexS(o.Name))
 	}
 	return id
+}
+
+// ---------------------------------------------------------------------------------------------
+// in-process generation: the same parsed schema value generated from more than once
+
+func readDir(d string) map[string]string {
+	m := map[string]string{}
+	fs, _ := ioutil.ReadDir(d)
+	for _, f := range fs {
+		b, _ := ioutil.ReadFile(filepath.Join(d, f.Name()))
+		m[f.Name()] = string(b)
+	}
+	return m
+}
+
+func sameFiles(a, b map[string]string) bool {
+	if len(a) != len(b) {
+		return false
+	}
+	for k, v := range a {
+		if w, ok := b[k]; !ok || w != v {
+			return false
+		}
+	}
+	return true
+}
+
+// inProcess parses once and generates: Generate, Generate again on the same Generator, then a second
+// NewGenerator+Generate from the SAME *tlparser.Schema.  All three outputs must be byte-identical and the
+// parsed schema must be left as it was.  Result: "ok", "first:<why>" (nothing to compare) or what broke.
+func inProcess(text string) string {
+	s, err := tlparser.ParseSchema(text)
+	if err != nil {
+		return "first:parse"
+	}
+	pristine, _ := tlparser.ParseSchema(text)
+	base, err := ioutil.TempDir("", "c14-inproc-")
+	if err != nil {
+		return "first:tempdir"
+	}
+	defer os.RemoveAll(base)
+	d1, d2 := filepath.Join(base, "a"), filepath.Join(base, "b")
+	os.Mkdir(d1, 0755)
+	os.Mkdir(d2, 0755)
+	run := func(f func() error) string {
+		var e error
+		panicked, val := vc.Catch(func() { e = f() })
+		if panicked {
+			return "panic: " + fmt.Sprint(val)
+		}
+		if e != nil {
+			return "error: " + e.Error()
+		}
+		return ""
+	}
+	var g1 *gen.Generator
+	if r := run(func() error { var e error; g1, e = gen.NewGenerator(s, "license", d1); return e }); r != "" {
+		return "first:" + r
+	}
+	if r := run(g1.Generate); r != "" {
+		return "first:" + r
+	}
+	out1 := readDir(d1)
+	if r := run(g1.Generate); r != "" {
+		return "generate-again-on-one-generator " + r
+	}
+	if !sameFiles(out1, readDir(d1)) {
+		return "generate-again-on-one-generator output differs"
+	}
+	var g2 *gen.Generator
+	if r := run(func() error { var e error; g2, e = gen.NewGenerator(s, "license", d2); return e }); r != "" {
+		return "second-generator-from-same-schema " + r
+	}
+	if r := run(g2.Generate); r != "" {
+		return "second-generator-from-same-schema " + r
+	}
+	if !sameFiles(out1, readDir(d2)) {
+		return "second-generator-from-same-schema output differs"
+	}
+	// the generator sorts the method list of the schema it was given in place (harmless: same
+	// definitions, other order); anything beyond a reordering of Methods is a change of the input
+	byName := func(m []tlparser.Method) {
+		sort.SliceStable(m, func(i, j int) bool {
+			if m[i].Name != m[j].Name {
+				return m[i].Name < m[j].Name
+			}
+			return m[i].CRC < m[j].CRC
+		})
+	}
+	byName(s.Methods)
+	byName(pristine.Methods)
+	if !reflect.DeepEqual(s, pristine) {
+		return "input-modified the generator changed the parsed schema it was given"
+	}
+	return "ok"
 }
 
 // ---------------------------------------------------------------------------------------------
@@ -726,6 +828,31 @@ func (g *sgen) schemaText(size int, forced bool) (string, []declDef) {
 		}
 		methods = append(methods, d)
 	}
+	if forced {
+		// types[0] and types[3] have several constructors, types[1] one, types[2] is an enum: every kind of
+		// function result at least once, with few parameters (positional arguments) and a flags word
+		multi, single, enum := types[0].name, types[1].name, types[2].name
+		for _, res := range []string{"Vector<" + enum + ">", "Vector<Bool>", "Vector<int>", "Vector<long>", "Vector<string>", "Vector<bytes>", "Vector<double>",
+			"Vector<" + single + ">", "Vector<" + multi + ">", enum, "Bool", single, multi} {
+			d := rdef{name: g.ctorName("", false, true), id: g.id(), result: res}
+			switch r.Intn(3) {
+			case 0:
+				d.params = []rparam{{name: "flags", typ: "#", flags: true}, {name: "a", typ: "int", opt: true, bit: r.Intn(32)}, {name: "b", typ: "string"}}
+			case 1:
+				d.params = []rparam{{name: "peer", typ: multi}, {name: "flags", typ: "#", flags: true}, {name: "silent", typ: "true", opt: true, bit: r.Intn(32)}}
+			default:
+				d.params = g.params(r.Intn(4), typeNames, true)
+			}
+			methods = append(methods, d)
+			if g.stat != nil {
+				k := res
+				for _, x := range []struct{ n, k string }{{enum, "ENUM"}, {single, "SINGLE"}, {multi, "MULTI"}} {
+					k = strings.Replace(k, x.n, x.k, 1)
+				}
+				g.stat["result:"+k]++
+			}
+		}
+	}
 	// lay the text out; constructors of one type need not be adjacent
 	type item struct {
 		d    rdef
@@ -935,6 +1062,13 @@ func main() {
 			}
 			o.Close()
 		}
+	case "inproc":
+		b, err := ioutil.ReadFile(os.Args[2])
+		if err != nil {
+			fmt.Fprintln(os.Stderr, err)
+			os.Exit(2)
+		}
+		fmt.Printf("I\t%s\n", inProcess(string(b)))
 	case "gen":
 		tier, outdir, repo := os.Args[2], os.Args[3], os.Args[4]
 		r := &runner{cases: vc.Create(filepath.Join(outdir, "cases.txt")), impl: vc.Create(filepath.Join(outdir, "impl.txt")), stat: map[string]int{}}
